@@ -14,6 +14,10 @@ type ByWithoutPlanner struct {
 	UseTimeSeriesTable bool
 	LabelsCache        **sql.With
 	FPCache            **sql.With
+
+	// ownLabels is set when this stage itself had to build the labels sub-select:
+	// the cache then holds this stage's previous result, not an upstream one
+	ownLabels bool
 }
 
 func (b *ByWithoutPlanner) Process(ctx *shared.PlannerContext) (sql.ISelect, error) {
@@ -47,7 +51,7 @@ func (b *ByWithoutPlanner) processSimple(ctx *shared.PlannerContext,
 func (b *ByWithoutPlanner) processTSTable(ctx *shared.PlannerContext,
 	main sql.ISelect) (sql.ISelect, error) {
 	var labels sql.ISelect
-	if b.LabelsCache != nil && *b.LabelsCache != nil {
+	if b.LabelsCache != nil && *b.LabelsCache != nil && !b.ownLabels {
 		labels = sql.NewSelect().Select(
 			sql.NewRawObject("fingerprint"),
 			sql.NewSimpleCol("cityHash64(labels)", "new_fingerprint"),
@@ -58,6 +62,7 @@ func (b *ByWithoutPlanner) processTSTable(ctx *shared.PlannerContext,
 			}, "labels"),
 		).From(sql.NewCol(sql.NewWithRef(*b.LabelsCache), "a"))
 	} else {
+		b.ownLabels = true
 		from, err := labelsFromScratch(ctx, *b.FPCache)
 		if err != nil {
 			return nil, err
